@@ -80,11 +80,16 @@ def build_coq(log):
         return True, out
 
 
-def build_harness(bin_name="harness"):
-    """Rebuild the Rust harness against /repo's current working tree."""
+def build_harness(bin_name="harness", release=False):
+    """Rebuild the Rust harness against /repo's current working tree (debug profile; the release
+    profile on request: debug assertions and overflow checks are off there)."""
     with Lock("cargo"):
-        rc, out = sh(["cargo", "build", "--offline", "--bin", bin_name], cwd=HARNESS, timeout=3000)
+        cmd = ["cargo", "build", "--offline", "--bin", bin_name] + (["--release"] if release else [])
+        rc, out = sh(cmd, cwd=HARNESS, timeout=3000)
         return rc == 0, out
+
+
+HARNESS_BIN_RELEASE = os.path.join(TARGET, "release", "harness")
 
 
 HYGIENE_RE = re.compile(r"\b(Admitted|admit|Axiom|Parameter|Conjecture|Hypothesis|Variable)\b|Unset Guard|bypass_check|type-in-type|Admit Obligations")
@@ -388,6 +393,8 @@ def known_findings():
 
 
 def write_replay(prop_id, payload):
+    # which build of the implementation produced the observation (replay uses the same one)
+    payload.setdefault("impl_binary", os.path.relpath(IMPL_BIN[0], TARGET) if "IMPL_BIN" in globals() else "debug/harness")
     os.makedirs(os.path.join(VERIF, "replays"), exist_ok=True)
     h = hashlib.sha256(json.dumps(payload, sort_keys=True).encode()).hexdigest()[:12]
     path = os.path.join(VERIF, "replays", "%s-%s.json" % (prop_id, h))
@@ -574,6 +581,10 @@ def merge_stats(a, b):
 
 def replay_generic(payload, monitor=None, impl_env=None):
     line = payload["case"]
+    rel = payload.get("impl_binary")
+    if rel and rel.startswith("release/"):
+        build_harness(os.path.basename(rel), release=True)
+        IMPL_BIN[0] = os.path.join(TARGET, rel)
     im = run_impl([line], env=impl_env)[0]
     mo = run_model([line])[0]
     print("case : %s\nimpl : %s\nmodel: %s" % (line, im, mo))
